@@ -96,7 +96,10 @@ def prepare(formulas, tag="q", quick_inproc_ms=1500):
             m = s.model()
             return {"result": "sat", "solver": "z3-5.1(in-process)", "time_s": time.time() - t0, "model": model_to_dict(m), "smt2_path": None}, None
     os.makedirs(WORKDIR, exist_ok=True)
-    path = os.path.join(WORKDIR, re.sub(r"[^A-Za-z0-9_.-]", "_", tag)[:120] + ".smt2")
+    # the file name must be unique per tag: long tags are cut, so a digest of the whole tag is appended (two queries that share a
+    # prefix -- e.g. a query and its "_euf" abstraction -- would otherwise overwrite each other's file before the solvers run)
+    import hashlib
+    path = os.path.join(WORKDIR, re.sub(r"[^A-Za-z0-9_.-]", "_", tag)[:100] + "-" + hashlib.sha1(tag.encode()).hexdigest()[:12] + ".smt2")
     with open(path, "w") as f:
         f.write(to_smt2(formulas))
     return None, path
